@@ -116,8 +116,8 @@ def enumerate_cases(tier, scope):
         for name in ('wait1', 'chain', 'async2', 'selfkill', 'failing'):
             for hook in ('on_finished', 'on_killed', 'on_excepted', 'on_terminated', 'on_finish', 'on_kill', 'on_except'):
                 for pos in ('pre', 'post'):
-                    for do in (['out', ['late', 1]], ['add_cleanup', None], ['unlisten', None]):
-                        if hook == 'on_terminated' and pos == 'post' and do[0] != 'unlisten':
+                    for do in (['out', ['late', 1]], ['add_cleanup', None], ['unlisten', None], ['remove_observer', None]):
+                        if hook == 'on_terminated' and pos == 'post' and do[0] not in ('unlisten', 'remove_observer'):
                             continue  # (super().on_terminated() closes the process: using it afterwards is refused, rightly)
                         for sched in ([], [['tick', 1], ['kill', 'k']], [['tick', 1], ['fail', 'f']]):
                             yield {'program': gen.CATALOGUE[name], 'schedule': sched, 'hooks': [{'hook': hook, 'occ': 1, 'pos': pos, 'do': do}]}
